@@ -320,6 +320,16 @@ fn fault_family(st: &mut Stats, quick: bool) {
         cases.push(("accept-then-silence", Upstream::AcceptSilent, req.clone(), Want::BadGateway));
         cases.push(("silence-after-request", Upstream::Script(vec![]), req.clone(), Want::BadGateway));
     }
+    // a request larger than a socket send buffer: an upstream that reads it gets all of it; one that accepts and
+    // never reads makes the proxy's write block, which must end in 502 within the timeout as well
+    let big = {
+        let mut r = Req::new("POST", "/upload");
+        r.headers = vec![("Host".into(), " ".into(), "app.test".into())];
+        r.body = Some((0..600 * 1024).map(|i| (i % 251) as u8).collect());
+        r
+    };
+    cases.push(("large-request", Upstream::Script(vec![UAct::Write(b"HTTP/1.1 200 OK\r\nContent-Length: 2\r\n\r\nok".to_vec()), UAct::Close]), big.clone(), Want::Upstream(200, vec![("content-length".into(), "2".into())], b"ok".to_vec())));
+    cases.push(("large-request-never-read", Upstream::AcceptSilent, big.clone(), Want::BadGateway));
     // trickle: one byte per 50 ms (the whole response would take longer than the timeout)
     let slow: Vec<u8> = format!("HTTP/1.1 200 OK\r\nContent-Length: 200\r\n\r\n{}", "z".repeat(200)).into_bytes();
     let mut acts = vec![];
